@@ -19,7 +19,7 @@ ASSUMPTIONS = [
     'pointwise evaluations: non-negativity is judged against 1e-15 times the largest value seen for that element in the sweep',
 ]
 REQUIRED = {t: ['event:bilform-acausal', 'event:bilform-causal', 'event:bilform-time-touch', 'path:inline', 'path:serial', 'path:pool',
-                'matrix:rectangular', 'matrix:asymmetric-pair-seen', 'eval:evaluate', 'eval:evaluate_exact', 'eval:potential',
+                'matrix:rectangular', 'matrix:asymmetric-pair-seen', 'call:test-list-only', 'eval:evaluate', 'eval:evaluate_exact', 'eval:potential',
                 'eval:t-at-start', 'eval:t-at-end', 'eval:t-before-start', 'switch:exact', 'switch:quad', 'event:tiny-positive',
                 'curve:UnitSquare', 'curve:PiSquare', 'curve:LShape', 'curve:Circle', 'curve:UnitInterval', 'source:repo-test-suite', 'source:driver']
             for t in ('quick', 'thorough')}
@@ -143,6 +143,17 @@ def run_shard(spec, acc):
                     acc.seen('matrix:asymmetric-pair-seen')
                 elif len({e.time_interval for e in order}) > 1:
                     acc.count('no_asymmetric_pair')
+                # ---- only the test list given (keyword and positional): the trial list defaults to the same list
+                perm = list(order)
+                rng.shuffle(perm)
+                for label, call in (('keyword', lambda: SL.bilform_matrix(elems_test=perm)), ('positional', lambda: SL.bilform_matrix(perm))):
+                    m1 = call()
+                    log.take()
+                    acc.seen('call:test-list-only')
+                    check_matrix(acc, SL, m1, perm, perm, 'serial', exact, judge_entry, wit0, log, curve)
+                m0 = SL.bilform_matrix()
+                log.take()
+                check_matrix(acc, SL, m0, list(mesh.leaf_elements), list(mesh.leaf_elements), 'serial', exact, judge_entry, wit0, log, curve)
                 # ---- rectangular lists on the three paths
                 n = len(order)
                 k1 = max(2, min(n - 1, 7))
